@@ -192,6 +192,13 @@ def parse_template(path: str):
                     raise TemplateError(f"{path}:{i+1}: unexpected line in extract block: {t}")
                 i += 1
             segs.append(("extract", blk))
+        elif s.startswith("//@ stubs "):
+            # every free function of <file> that returns <Type> and takes only scalar / byte-slice / string parameters is
+            # declared as an opaque external function, unless the template already extracts or defines it: error
+            # constructors the extracted code may come to call (their payload is never inspected)
+            flush()
+            m = re.match(r"//@ stubs (\S+) -> (\w+)", s)
+            segs.append(("stubs", dict(file=m.group(1), ret=m.group(2))))
         elif s.startswith("//@ contract-lemma "):
             meta["contract_lemmas"].add(s.split()[2])
         elif s.startswith("//@ min-verified "):
@@ -407,7 +414,31 @@ def build_unit(repo: str, template: str, out_path: str):
     segs, meta = parse_template(template)
     report = dict(template=os.path.relpath(template, "/verif"), items=[], lost=[])
     lines = []  # (text, origin, item)
+    # names the template itself provides (extracted or written out): never stubbed a second time
+    provided = set()
     for kind, payload in segs:
+        if kind == "raw":
+            provided.update(re.findall(r"\bfn\s+([A-Za-z_][A-Za-z0-9_]*)", payload))
+        elif kind == "extract":
+            provided.add(payload["path"].split(" :: ")[-1].split()[-1])
+    for kind, payload in segs:
+        if kind == "stubs":
+            src = open(os.path.join(repo, payload["file"]), encoding="utf-8").read()
+            ok_ty = re.compile(r"^(usize|u64|u32|u16|u8|i64|i32|bool|&\[u8\]|Vec<u8>|&str|String)$")
+            n = 0
+            for m in re.finditer(r"^fn\s+([a-z_0-9]+)\(([^)]*)\)\s*->\s*%s\s*\{" % re.escape(payload["ret"]), src, re.M | re.S):
+                name, params = m.group(1), m.group(2)
+                if name in provided:
+                    continue
+                ps = [x.strip() for x in params.split(",") if x.strip()]
+                if not all(":" in x and ok_ty.match(x.split(":", 1)[1].strip()) for x in ps):
+                    continue
+                lines.append(("#[verifier::external_body]", "glue", None))
+                lines.append((f"fn {name}({', '.join(ps)}) -> {payload['ret']} {{ unimplemented!() }}", "glue", None))
+                provided.add(name)
+                n += 1
+            report["items"].append(dict(item=f"{payload['file']}::stubs -> {payload['ret']}", src_line=0, sha256_16="", rules=[f"X8: {n} error constructors declared opaque"], external_body=True))
+            continue
         if kind == "raw":
             for l in payload.split("\n"):
                 if l.strip().startswith("//@ splice "):
